@@ -195,10 +195,19 @@ def check(run):
             and getattr(n.targets[0].slice, "value", None) == "redirects"]
     ok = bool(hist) and "self.redirects" in unparse(hist[0].value)
     run.ob("C19.R5", "%s:redirect-history-attached" % sresp.fq, ok, run.site(sresp), "" if ok else "the redirect history is not attached to the final response")
+    # one owner of the redirect history: serviceResponse() appends to / rebinds self.redirects, so redirect() must read the Location to follow
+    # from self.redirects itself - an alias held by another object (the respondent got the list at construction) goes stale on rebinding
+    reads = [n for n in walk_local(rd.node) if isinstance(n, ast.Subscript) and isinstance(n.ctx, ast.Load) and (dotted(n.value) or "").endswith("redirects")]
+    rebinds = [n for g in (sresp, rd, ix.method(cls, "request")) for n in walk_local(g.node) if isinstance(n, ast.Assign) and dotted(n.targets[0]) == "self.redirects"]
+    ok = bool(reads) and all(dotted(n.value) == "self.redirects" for n in reads)
+    run.ob("C19.R5", "%s:follows-own-redirect-history" % rd.fq, ok or not rebinds, run.site(rd, reads[0]) if reads else run.site(rd),
+           "" if ok or not rebinds else "redirect() takes the Location to follow from `%s` while the client rebinds self.redirects (%d site(s)): after the first "
+           "completed redirect sequence the two lists differ and a later redirected request follows the previous sequence's last Location" %
+           (unparse(reads[0].value) if reads else None, len(rebinds)))
     call = [n for n in walk_local(sresp.node) if isinstance(n, ast.Call) and is_self_call(n, "redirect")]
     ok = bool(call) and any("redirectant" in g for g in guards(call[0], sresp))
     run.ob("C19.R5", "%s:redirect-only-when-redirectant" % sresp.fq, ok, run.site(sresp), "" if ok else "redirect() must be called only for redirect responses")
-    run.floor("C19.R5", 5)
+    run.floor("C19.R5", 6)
 
 
 MUTANTS = [
